@@ -41,7 +41,11 @@ func (g *msgGen) text() string {
 			sb.WriteString(vh.Pick(r, textPool))
 			sb.WriteString("x")
 		}
-		return sb.String()[:n-3] + "end" // may cut a multi-byte rune: keep it valid below
+		t := sb.String()[:n-3] + "end" // may cut a multi-byte rune
+		if !g.malformed {
+			t = strings.ToValidUTF8(t, "?")
+		}
+		return t
 	}
 	switch r.Intn(10) {
 	case 0, 1, 2, 3:
@@ -346,7 +350,7 @@ func (g *msgGen) pbAny(m protoreflect.Message) {
 	fs := m.Descriptor().Fields()
 	p := g.anyPayload()
 	b, err := proto.MarshalOptions{AllowPartial: true}.Marshal(p)
-	if err != nil {
+	if err != nil { // invalid UTF-8 drawn for the payload (malformed stream): use a plain payload instead
 		p = &schema_testpb.Bar{BarId: "x"}
 		b, _ = proto.Marshal(p)
 	}
@@ -371,12 +375,12 @@ func (g *msgGen) j5Any(m protoreflect.Message) {
 	r := g.r
 	fs := m.Descriptor().Fields()
 	p := g.anyPayload()
-	tn := string(p.ProtoReflect().Descriptor().FullName())
 	b, err := proto.Marshal(p)
-	if err != nil {
+	if err != nil { // invalid UTF-8 drawn for the payload (malformed stream): use a plain payload instead
 		p = &schema_testpb.Bar{BarId: "x"}
 		b, _ = proto.Marshal(p)
 	}
+	tn := string(p.ProtoReflect().Descriptor().FullName())
 	m.Set(fs.ByName("type_name"), protoreflect.ValueOfString(tn))
 	mode := r.Intn(3)
 	if mode == 0 || mode == 2 {
@@ -500,6 +504,11 @@ func (g *msgGen) fill(m protoreflect.Message, depth int) {
 		vfd := fd
 		if fd.IsMap() {
 			vfd = fd.MapValue()
+		}
+		if vfd.Kind() == protoreflect.MessageKind && vfd.Message().FullName() == "google.protobuf.Duration" {
+			// not a J5 type: the reflector lists the field (string/format duration) but the codec has no
+			// conversion for it (KNOWN_FINDINGS: recorded under C18/C06); outside C01/C08's quantifier
+			continue
 		}
 		if vfd.Kind() == protoreflect.MessageKind && depth >= g.maxDepth {
 			// leaves only at the depth limit: well-known scalars and small payloads,
